@@ -227,7 +227,9 @@ def main():
             if a.replay:
                 res = harness.replay(json.load(open(a.replay)), casedir=casedir, variant=variant)
             else:
-                h_tier = tier if proof_ok else "thorough"   # a broken proof widens the search
+                # a broken proof widens the search; so does an anchor that fell back to Pinned (the source left the
+                # grammar there, so only the correspondence and the oracles speak about that piece: look harder)
+                h_tier = tier if (proof_ok and not missing) else "thorough"
                 res = harness.generate(tier=h_tier, seed=seed, casedir=casedir, variant=variant)
         except Exception as ex:      # the harness itself could not run against this tree: nothing is shown, report it
             import traceback
